@@ -11,7 +11,7 @@ from .tlc import MachineryError
 INVARIANTS = [
     "C01_IdleIterationLeavesNothing", "C01_ExactlyOne", "C03_NonNegative", "C02_WithinDuration",
     "C04_StoppedMeansReset", "C04_RunningMeansExecuting", "C13_NeverCycles",
-    "C13_LatchFollowsExecuting", "C13_OffMeansNotExecuting", "EnabledAgrees",
+    "C13_LatchFollowsExecuting", "C13_OffMeansNotExecuting", "C13_EnableRestarts", "EnabledAgrees",
 ]
 ACTION_PROPS = [
     "C01_RegularOnlyWhenRequested", "C01_StopsWithoutRequest", "C01_NoDefaultWhileRequested",
@@ -30,7 +30,8 @@ TEETH = {
     "C04": [("default_no_done", "S2", {"C04_StoppedMeansReset", "C04_StopCallsDone"}),
             ("cycle_no_restart", "S6", {"C04_RunningMeansExecuting", "C02_CycleRestartsAtExpiry",
                                         "C03_NonNegative"})],
-    "C13": [("auto_keeps_request", "A3", {"C13_NeverCycles"})],
+    "C13": [("auto_keeps_request", "A3", {"C13_NeverCycles"}),
+            ("enable_keeps_running", "A1", {"C13_EnableRestarts"})],
 }
 # reachability probes that TLC must falsify: (probe, shape)
 PROBES = {
